@@ -433,28 +433,29 @@ func (g *schemaGuards) orderRule(inherits *core.FuncInfo, byName map[string]*typ
 	}
 	e := effects(c)
 	reachesInherits := func(fi *core.FuncInfo) bool { return c.P.Reachable(fi)[inherits] }
-	var copyCall *ast.CallExpr
+	var copyCall *core.SeqCall
 	type fc struct {
-		call   *ast.CallExpr
+		at     core.SeqCall
 		callee *core.FuncInfo
 	}
 	var seq []fc
-	for _, call := range calls(schemaFn.Decl.Body) {
-		callee := c.P.StaticCallee(schemaFn, call)
-		if callee == nil || c.P.Funcs[callee] == nil {
+	// calls in execution order; a loop over a table of steps is expanded to the steps in table order
+	for _, sc := range c.P.CallSequence(schemaFn) {
+		sc := sc
+		if c.P.Funcs[sc.Callee] == nil {
 			continue
 		}
-		cf := c.P.Funcs[callee]
-		seq = append(seq, fc{call, cf})
+		cf := c.P.Funcs[sc.Callee]
+		seq = append(seq, fc{sc, cf})
 		if cf != schemaFn && reachesInherits(cf) && !c.P.Reachable(cf)[schemaFn] || cf == inherits {
-			copyCall = call
+			copyCall = &sc
 		}
 	}
 	// the call that copies: the one whose callee reaches inherits directly (inferFromRef)
-	for _, s := range seq {
-		for _, cs := range c.P.CG().Out[s.callee.Obj] {
+	for i := range seq {
+		for _, cs := range c.P.CG().Out[seq[i].callee.Obj] {
 			if cs.Callee == inherits.Obj {
-				copyCall = s.call
+				copyCall = &seq[i].at
 			}
 		}
 	}
@@ -479,7 +480,7 @@ func (g *schemaGuards) orderRule(inherits *core.FuncInfo, byName map[string]*typ
 		if len(flagsWritten) == 0 {
 			continue
 		}
-		if s.call.Pos() > copyCall.Pos() {
+		if copyCall.Before(s.at) {
 			for fl := range flagsWritten {
 				late = append(late, s.callee.Obj.Name()+" writes "+fl)
 				if fl != "IsSimpleSchema" {
@@ -489,7 +490,7 @@ func (g *schemaGuards) orderRule(inherits *core.FuncInfo, byName map[string]*typ
 		}
 	}
 	sort.Strings(lateNonSimple)
-	c.S.Decide(len(lateNonSimple) == 0 && len(late) >= 1, "C20", "GUARD-COPYORDER", "Schema", c.P.Pos(copyCall.Pos()),
+	c.S.Decide(len(lateNonSimple) == 0 && len(late) >= 1, "C20", "GUARD-COPYORDER", "Schema", c.P.Pos(copyCall.Call.Pos()),
 		"after the flags are copied from the $ref target only the simple-schema recomputation runs ("+strings.Join(late, ", ")+")",
 		"after the flags are copied from the $ref target, "+strings.Join(lateNonSimple, "; ")+" (or the simple-schema recomputation is missing): a $ref no longer classifies like its target, and flag-guarded dereferences run on copied flags")
 }
